@@ -906,3 +906,221 @@ func (w *pfAfterView) isZero(fs []Fact, idx int) tri {
 	}
 	return unknownTri
 }
+
+// ---------------------------------------------------------------------------------------------
+// Results collected in one local and returned once
+//
+//	var res T                      |   if a { return x, T{F: …}, nil }
+//	if a { res.F = … } else if b { res.G = … }     |   if b { return x, T{G: …}, nil }
+//	return x, res, nil             |   return x, T{}, nil
+//
+// Both columns return the same values on the same paths. In the left one the return block is shared
+// and the returned value is a load of the local; what the local holds depends on the way the block
+// was entered. pfSplitCollected judges such a return per reaching definition: one case per incoming
+// edge of the return block (looking through blocks that merely join and jump on), with the facts of
+// that edge and a verdict on what the local holds there.
+
+const (
+	pfNotCollected  = 0 // the case was passed through unchanged
+	pfNeverWritten  = 1 // no assignment to (a field of) the local on any path through this edge: zero value
+	pfAlwaysWritten = 2 // every path through this edge assigned the fields in Must
+	pfMaybeWritten  = 3 // some paths through this edge assigned fields, others may not have
+)
+
+type pfCollectedCase struct {
+	ReturnCase
+	Written int
+	Must    map[string]bool // fields assigned on every path (Written == pfAlwaysWritten)
+}
+
+type pfLocalState struct {
+	top  bool
+	may  bool
+	must map[string]bool
+}
+
+// pfLocalFieldStates: for a struct local that is only ever assigned field by field, the state at the
+// end of every block: may = some field was assigned since the variable was (re)initialised, must =
+// the fields assigned on every path. ok=false when the local is also assigned as a whole, or its
+// address is used in a way that is not modelled.
+func (p *Program) pfLocalFieldStates(a *ssa.Alloc) (map[*ssa.BasicBlock]pfLocalState, bool) {
+	pt, isPtr := a.Type().Underlying().(*types.Pointer)
+	if !isPtr {
+		return nil, false
+	}
+	if _, isStruct := pt.Elem().Underlying().(*types.Struct); !isStruct {
+		return nil, false
+	}
+	fieldOf := map[ssa.Instruction]string{} // store instruction -> top-level field assigned
+	var okAddr func(v ssa.Value, field string, d int) bool
+	okAddr = func(v ssa.Value, field string, d int) bool {
+		if d > 4 {
+			return false
+		}
+		for _, r := range referrersOf(v) {
+			switch x := r.(type) {
+			case *ssa.Store:
+				if x.Addr != v {
+					return false // the address itself is stored somewhere
+				}
+				if field == "" {
+					return false // assignment of the whole variable
+				}
+				fieldOf[x] = field
+			case *ssa.FieldAddr:
+				f := field
+				if f == "" {
+					f = fieldName(x.X.Type(), x.Field)
+				}
+				if !okAddr(x, f, d+1) {
+					return false
+				}
+			case *ssa.UnOp, *ssa.DebugRef:
+			case ssa.CallInstruction:
+				if field != "" || callMayWriteThroughArg(x.Common(), a) {
+					return false
+				}
+			default:
+				return false
+			}
+		}
+		return true
+	}
+	if !okAddr(a, "", 0) {
+		return nil, false
+	}
+	fn := a.Parent()
+	out := map[*ssa.BasicBlock]pfLocalState{}
+	for _, b := range fn.Blocks {
+		out[b] = pfLocalState{top: true}
+	}
+	transfer := func(b *ssa.BasicBlock, in pfLocalState) pfLocalState {
+		st := pfLocalState{may: in.may, must: map[string]bool{}}
+		for k := range in.must {
+			st.must[k] = true
+		}
+		for _, ins := range b.Instrs {
+			if ins == ssa.Instruction(a) {
+				st = pfLocalState{must: map[string]bool{}}
+			}
+			if f, isSt := fieldOf[ins]; isSt {
+				st.may = true
+				st.must[f] = true
+			}
+		}
+		return st
+	}
+	same := func(x, y pfLocalState) bool {
+		if x.top != y.top || x.may != y.may || len(x.must) != len(y.must) {
+			return false
+		}
+		for k := range x.must {
+			if !y.must[k] {
+				return false
+			}
+		}
+		return true
+	}
+	for changed, iter := true, 0; changed && iter < 100; iter++ {
+		changed = false
+		for _, b := range fn.Blocks {
+			in := pfLocalState{top: true}
+			if b == fn.Blocks[0] {
+				in = pfLocalState{must: map[string]bool{}}
+			}
+			for _, pr := range b.Preds {
+				ps := out[pr]
+				if ps.top {
+					continue
+				}
+				if in.top {
+					in = pfLocalState{may: ps.may, must: map[string]bool{}}
+					for k := range ps.must {
+						in.must[k] = true
+					}
+					continue
+				}
+				in.may = in.may || ps.may
+				for k := range in.must {
+					if !ps.must[k] {
+						delete(in.must, k)
+					}
+				}
+			}
+			if in.top {
+				continue
+			}
+			if st := transfer(b, in); !same(st, out[b]) {
+				out[b] = st
+				changed = true
+			}
+		}
+	}
+	return out, true
+}
+
+// pfSplitCollected: see above. idx selects the result that may be a collected local.
+func (p *Program) pfSplitCollected(cases []ReturnCase, idx int) []pfCollectedCase {
+	var out []pfCollectedCase
+	for _, rc := range cases {
+		pass := pfCollectedCase{ReturnCase: rc}
+		if rc.Pred != nil || idx >= len(rc.Ret.Results) {
+			out = append(out, pass)
+			continue
+		}
+		ld, isLoad := rc.Ret.Results[idx].(*ssa.UnOp)
+		if !isLoad || ld.Op != token.MUL || ld.Block() != rc.Ret.Block() {
+			out = append(out, pass)
+			continue
+		}
+		a, isAlloc := ld.X.(*ssa.Alloc)
+		if !isAlloc || a.Block() == ld.Block() {
+			out = append(out, pass)
+			continue
+		}
+		states, ok := p.pfLocalFieldStates(a)
+		touched := false // the return block itself assigns to the local before the load
+		for _, ins := range ld.Block().Instrs {
+			if ins == ssa.Instruction(ld) {
+				break
+			}
+			if st, isSt := ins.(*ssa.Store); isSt && allocOf(st.Addr) == a {
+				touched = true
+			}
+		}
+		if !ok || touched || len(ld.Block().Preds) < 2 {
+			out = append(out, pass)
+			continue
+		}
+		var emit func(from, to *ssa.BasicBlock, d int)
+		emit = func(from, to *ssa.BasicBlock, d int) {
+			// a block that only joins paths and jumps on: judge its incoming edges instead
+			if _, isJump := from.Instrs[len(from.Instrs)-1].(*ssa.Jump); isJump && len(from.Instrs) == 1 && len(from.Preds) >= 2 && d < 3 {
+				for _, pp := range from.Preds {
+					emit(pp, from, d+1)
+				}
+				return
+			}
+			st := states[from]
+			nrc := pfCollectedCase{ReturnCase: rc}
+			nrc.Pred = from
+			nrc.Facts = p.FactsOnEdge(from, to)
+			nrc.Results = append([]ssa.Value{}, rc.Results...)
+			switch {
+			case st.top || !st.may:
+				nrc.Written = pfNeverWritten
+				nrc.Results[idx] = zeroConst(ld.Type())
+			case len(st.must) > 0:
+				nrc.Written = pfAlwaysWritten
+				nrc.Must = st.must
+			default:
+				nrc.Written = pfMaybeWritten
+			}
+			out = append(out, nrc)
+		}
+		for _, pr := range ld.Block().Preds {
+			emit(pr, ld.Block(), 0)
+		}
+	}
+	return out
+}
